@@ -55,11 +55,23 @@ func (w *InformerWorker) WorkerName() string {
 func (w *InformerWorker) Init() {
 	// Add event handler when we get JobConfig updates.
 	w.jobconfigInformer.Informer().AddEventHandler(cache.ResourceEventHandlerFuncs{
+		AddFunc: w.handleAdd,
 		UpdateFunc: func(oldObj, newObj interface{}) {
 			w.handleUpdate(oldObj, newObj)
 		},
 		DeleteFunc: w.enqueueFlush,
 	})
+}
+
+// handleAdd hands an added JobConfig to the CronWorker, which starts scheduling
+// it unless it is already being scheduled (i.e. it was loaded on startup).
+func (w *InformerWorker) handleAdd(obj interface{}) {
+	rjc, err := eventhandler.Executionv1alpha1JobConfig(obj)
+	if err != nil {
+		klog.ErrorS(err, "croncontroller: unable to handle event", "worker", w.WorkerName())
+		return
+	}
+	w.addedConfigs <- rjc
 }
 
 func (w *InformerWorker) handleUpdate(oldObj, newObj interface{}) {
